@@ -39,6 +39,8 @@ pub struct Draws {
     pub prefix_overrides: Vec<(String, u64)>,
     pub log: Vec<Decision>,
     pub log_enabled: bool,
+    /// every decision that is not forced takes value 0 (self-contained minimised replays)
+    pub default_zero: bool,
 }
 
 impl Draws {
@@ -49,6 +51,7 @@ impl Draws {
             prefix_overrides: Vec::new(),
             log: Vec::new(),
             log_enabled: true,
+            default_zero: false,
         }
     }
 
@@ -60,6 +63,9 @@ impl Draws {
             if key.starts_with(p.as_str()) {
                 return Some(*v);
             }
+        }
+        if self.default_zero {
+            return Some(0);
         }
         None
     }
